@@ -209,11 +209,16 @@ def t1_gone(sx, hr, size, n):
 def t3_attr(sx, checksum_ok, nblocks, with_sys):
     w = worlds.T3World(sx, 4, 3, 5, 0, extra=nblocks - 6, fill=0x40)
     m = w.sim.mem
-    # with a correct checksum only version, Nbw, Nmaxb (low), WriteF and RWFlag
-    # are symbolic (a 14-term symbolic sum in every later query is too slow);
-    # with an arbitrary checksum all attribute bytes are
-    for i in (range(0, 14) if not checksum_ok else (0, 2, 4, 9, 10)):
+    # version, Nbw, Nmaxb (low), WriteF and RWFlag are symbolic (a 14-term
+    # symbolic sum in every later query is too slow), Nbr and Ln from boundary
+    # sets; the checksum is correct or two further symbolic bytes
+    for i in ((0, 2, 4, 9, 10) if not checksum_ok else (0, 9, 10)):
         m[i] = sx.byte("a[%d]" % i)
+    if checksum_ok:
+        # (a correct checksum over many symbolic bytes makes every later query
+        # slow: Nbw and Nmaxb from boundary sets in this variant)
+        m[2] = sx.pick("nbw", [0, 1, 3])
+        m[4] = sx.pick("nmaxb_lo", [0, 5, 0xFF])
     # Nbr is turned into a range() step by the reader: boundary set
     m[1] = sx.pick("nbr", [0, 1, 4, 255])
     # Ln becomes a range() extent and a slice bound in the reader: boundary sets
@@ -365,7 +370,7 @@ def partitions(tier):
     add("t1:hr:120", "t1_hr", size=120)
     add("t1:hr:512", "t1_hr", size=512)
     for cs in (True, False):
-        for nb in ((6, 20) if (tier != "quick" or not cs) else (6,)):
+        for nb in ((6, 20) if tier != "quick" else (6,)):
             for ws in (True, False):
                 add("t3:attr:%s:%d:%s" % (cs, nb, ws), "t3_attr", checksum_ok=cs, nblocks=nb, with_sys=ws)
     add("t3:gone", "t3_gone", n=40)
